@@ -9,7 +9,7 @@ from fractions import Fraction
 sys.path.insert(0, os.path.dirname(os.path.dirname(os.path.abspath(__file__))))
 from verif_static.core import run_check, AnalysisError, REPO  # noqa
 from verif_static.norm import same, same_stmt  # noqa
-from verif_static import model as M, cfg as C  # noqa
+from verif_static import model as M, cfg as C, norm as N  # noqa
 from verif_static.poly import Poly  # noqa
 
 NB = 'pysph/base/nnps_base.pyx'
@@ -468,8 +468,11 @@ def rule_update(chk, ci, concrete):
         kw = dict((k.arg, compact(k.value)) for k in bc.keywords)
         ok = loop is not None and compact(loop.iter) == 'range(self.narrays)' and kw.get('pa_index') == U(loop.target) and \
             not any(isinstance(x, (ast.Continue, ast.Break, ast.If)) for x in ast.walk(loop))
-        idx = [a for a in ast.walk(loop) if isinstance(a, ast.Assign) and U(a.targets[0]) == 'indices'] if loop is not None else []
-        ok = ok and bool(idx) and compact(idx[0].value) == 'arange_uint(num_particles)'
+        # what is binned, with the locals of the loop body substituted: every index of the array as it is now
+        kwv = dict((k.arg, k.value) for k in bc.keywords)
+        ld_ = N.local_defs(loop.body) if loop is not None else {}
+        iv_ = U(loop.target) if loop is not None else '?'
+        ok = ok and 'indices' in kwv and compact(N.inline(kwv['indices'], ld_)) == 'arange_uint(self.particles[%s].get_number_of_particles())' % iv_
         chk.decide(ok, 'results-not-stale', 'update:every-array-every-particle-binned', node=loop or up, file=NB, func='NNPS.update',
                    detail_bad='not every particle of every array is (re)binned', detail_ok='_bin(pa_index=i, indices=arange(n_i)) for all arrays')
     if cupd:
@@ -1238,7 +1241,10 @@ def rule_octree(chk):
     try:
         ev = S.Evaluator(ctx, ast.FunctionDef(name='f', args=fn.args, body=M.docstring_stripped(pre), decorator_list=[]))
         ev.run()
-        got = ev.cond(pr[0].test)
+        ptest = pr[0].test
+        if isinstance(ptest, ast.Name):           # the test kept in a boolean local
+            ptest = N.local_defs(pre).get(ptest.id, ptest)
+        got = ev.cond(ptest)
         rs = ctx.var('self.radius_scale')
         eff = ctx.var('node.length') * S.Poly.const(S.Fraction(1, 2)) + ctx.fn('max', [ctx.mul(rs, ctx.var('q_h')), ctx.mul(rs, ctx.var('node.hmax'))])
         want = S.Poly.const(0)
@@ -1550,6 +1556,40 @@ def rule_coindexed(chk):
     chk.floor('loops reading coordinates and h of one array', n, 20)
 
 
+def rule_cell_counts(chk):
+    """the grid has at least one cell along every direction, whatever the extent of the particles: the flattened-index validity test rejects every cell of a direction
+    with a count of 0 (all particles in a plane / on a line of a direction the problem does use), so every query would come back empty.  Per path through
+    LinkedListNNPS._get_number_of_cells (inherited by BoxSortNNPS): each count stored is a constant >= 1 or a value the path has found to be neither negative nor zero"""
+    from verif_static import paths as PT
+    rel = 'pysph/base/linked_list_nnps.pyx'
+    t = M.cy(rel)
+    fn = M.find_func(M.find_class(t, 'LinkedListNNPS'), '_get_number_of_cells')
+    bad, n = None, 0
+    for p_ in PT.enumerate_paths(M.docstring_stripped(fn.body)):
+        if p_[-1].kind == 'raise':
+            continue
+        facts = PT.path_facts(p_)
+        sto = [(tg, v) for i, tg, v in PT.stores_on(p_) if tg.startswith('self.ncells_per_dim.data[')]
+        if len(sto) < 3:
+            bad = bad or 'a path stores %d of the three counts' % len(sto)
+        for tg, v in sto:
+            n += 1
+            if isinstance(v, ast.Constant) and isinstance(v.value, int) and v.value >= 1:
+                continue
+            vt = compact(v)
+            nonzero = any((not tr_ and isinstance(x, ast.Compare) and len(x.ops) == 1 and isinstance(x.ops[0], ast.Eq) and compact(x.left) == vt and compact(x.comparators[0]) == '0') or
+                          (tr_ and isinstance(x, ast.Compare) and len(x.ops) == 1 and ((isinstance(x.ops[0], ast.Gt) and compact(x.left) == vt and compact(x.comparators[0]) == '0') or
+                                                                                      (isinstance(x.ops[0], ast.GtE) and compact(x.left) == vt and compact(x.comparators[0]) == '1') or
+                                                                                      (isinstance(x.ops[0], ast.NotEq) and compact(x.left) == vt and compact(x.comparators[0]) == '0')))
+                          for x, tr_ in facts)
+            nonneg = any(not tr_ and isinstance(x, ast.Compare) and len(x.ops) == 1 and isinstance(x.ops[0], ast.Lt) and compact(x.left) == vt and compact(x.comparators[0]) == '0' for x, tr_ in facts)
+            if not (nonzero and nonneg):
+                bad = bad or '%s = %s can be %s on a path (tests passed: %s)' % (tg, U(v)[:60], 'zero' if not nonzero else 'negative', ', '.join('%s is %s' % (compact(x)[:40], tr_) for x, tr_ in facts)[:200])
+    chk.decide(bad is None and n >= 3, 'cell-size-covers-every-array', 'LinkedListNNPS:at-least-one-cell-per-direction', node=fn, file=rel, func='LinkedListNNPS._get_number_of_cells',
+               detail_bad='%s: with no extent along a direction the count is 0 and every cell index is rejected as invalid - all queries return nothing' % bad,
+               detail_ok='%d stores over all paths: a constant >= 1 or a value tested non-negative and non-zero' % n)
+
+
 def rule_cell_size_model(chk, rule='cell-size-covers-every-array'):
     """CPUDomainManager._compute_cell_size_for_binning interpreted (E8, lowered Cython) on model array wrappers whose cached h extrema are stale until refreshed: the cell
     size is radius_scale * (largest h over ALL arrays) - 1.0 when that vanishes -, it is stored and handed to set_cell_size, and hmin is radius_scale * (smallest h)"""
@@ -1558,15 +1598,21 @@ def rule_cell_size_model(chk, rule='cell-size-covers-every-array'):
     t = M.cy(NB)
     fn = M.find_func(M.find_class(t, 'CPUDomainManager'), '_compute_cell_size_for_binning')
 
-    def wrapper(hmax, hmin):
+    def wrapper(hmax, hmin, stale_np=4, live=4):
         col = EM.mock(maximum=1e-9, minimum=77.0)         # stale: a tiny maximum and a huge minimum, so an unrefreshed read shows as too small a cell / too large an hmin
 
         def refresh(i, a, k, n, e):
             col.attrs['maximum'], col.attrs['minimum'] = hmax, hmin
             return None
         col.attrs['update_min_max'] = refresh
-        return EM.mock(h=col)
-    SETS = [c for r in (1, 2, 3) for c in itertools.permutations(((0.2, 0.1), (0.7, 0.5), (0.4, 0.05)), r)] + [((0.0, 0.0),), ((0.0, 0.0), (1e-8, 0.0)), ()]
+        cnt = lambda i, a, k, n, e: live          # noqa: E731
+        # `np` is the count captured when the wrapper was made (stale), the methods ask the array
+        return EM.mock(h=col, np=stale_np, get_number_of_particles=cnt, pa=EM.mock(get_number_of_particles=cnt, num_real_particles=live))
+    SETS = [c for r in (1, 2, 3) for c in itertools.permutations(((0.2, 0.1), (0.7, 0.5), (0.4, 0.05)), r)] + [((0.0, 0.0),), ((0.0, 0.0), (1e-8, 0.0)), (),
+                                                                                                              # one array with a vanishing h next to an ordinary one
+                                                                                                              ((0.0, 0.0), (0.2, 0.1)), ((0.2, 0.1), (0.0, 0.0)),
+                                                                                                              # an array that was empty when its wrapper was made and holds the largest h now
+                                                                                                              ((0.2, 0.1), (0.9, 0.6, 0, 5)), ((0.9, 0.6, 0, 5), (0.2, 0.1))]
     bad, und = None, None
     RS = 2.0
     for hs in SETS:
@@ -1642,6 +1688,7 @@ def main(chk):
     rule_stencil(chk, ci, concrete)
     rule_coindexed(chk)
     rule_cell_size(chk)
+    rule_cell_counts(chk)
     rule_no_pruning(chk, ci, concrete)
     rule_octree(chk)
     rule_subcell_radius(chk)
